@@ -194,7 +194,7 @@ theorem exec_ignore_force (p : Prog) (s : St) (hf : s.forced = false)
       intro t b h
       refine ⟨?_, fun a h1 => h.2 a (doSetEnabled_of_active h1).2⟩
       have := h.1
-      unfold doSetEnabled doDiscard
+      rw [doSetEnabled_eq]; unfold doDiscard
       split <;> (try split) <;> simp_all [resetActive, addLog])
     p s ⟨hf, h⟩
   exact this.1
